@@ -128,6 +128,7 @@ static FILE *wlog = NULL;        /* ordered write log (block, 512 bytes hex) */
 static int wlog_full = 0, wlog_reads = 0;
 static long n_reads = 0, n_writes = 0;      /* since last reset              */
 static long fault_rd = 0, fault_wr = 0;     /* k-th read/write fails (1-based; 0 = off) */
+static long fault_cnt = 1;                  /* ... and the fault_cnt - 1 transfers after it (a burst) */
 static int fault_sticky = 0;
 static long rd_since = 0, wr_since = 0;
 static long read_limit = 0;      /* per-call read budget (0 = unlimited)     */
@@ -161,7 +162,7 @@ static int io_hook(int is_write, uint32_t n, unsigned size, const uint8_t *wbuf,
         }
         if (read_limit && reads_this_call > read_limit && bail_armed) siglongjmp(bail, 1);
         if (wlog && wlog_reads) fprintf(wlog, "R %u %u\n", n, size);
-        if (fault_rd && (rd_since == fault_rd || (fault_sticky && rd_since > fault_rd))) {
+        if (fault_rd && ((rd_since >= fault_rd && rd_since < fault_rd + fault_cnt) || (fault_sticky && rd_since > fault_rd))) {
             if (rbuf && !garbage_keep) memset(rbuf, garbage_byte, size);
             return -1;
         }
@@ -504,8 +505,9 @@ int main(int argc, char **argv) {
         else if (!strcmp(c, "ledger")) { out("ok live=%d dfree=%ld total=%ld", ledger_n, ledger_dfree, ledger_total); }
         else if (!strcmp(c, "counters")) { out("ok reads=%ld writes=%ld devwrites=%ld warn=%ld errs=%ld", n_reads, n_writes, total_dev_writes, n_warn, n_err); }
         else if (!strcmp(c, "fault")) { /* fault rd|wr <k> [sticky] ; fault clear */
-            if (!strcmp(a[1], "clear")) { fault_rd = fault_wr = 0; fault_sticky = 0; }
+            if (!strcmp(a[1], "clear")) { fault_rd = fault_wr = 0; fault_sticky = 0; fault_cnt = 1; }
             else { rd_since = wr_since = 0; fault_sticky = na > 3 && !strcmp(a[3], "sticky");
+                   fault_cnt = (na > 3 && a[3][0] >= '0' && a[3][0] <= '9') ? atol(a[3]) : 1;   /* fault rd <k> <n>: reads k .. k+n-1 fail */
                    if (!strcmp(a[1], "rd")) { fault_rd = atol(a[2]); fault_wr = 0; } else { fault_wr = atol(a[2]); fault_rd = 0; } }
             out("ok");
         }
